@@ -80,6 +80,8 @@ class StmtMixin:
     def st_Delete(self, s, st):
         for t in s.targets:
             if isinstance(t, ast.Name):
+                if t.id in getattr(self, "my_nonlocals", ()):
+                    self.assign_name(st, t.id, SV(con("unbound"), TCON))
                 st.env.pop(t.id, None)
             else:
                 raise Untranslatable("del of non-name")
@@ -404,6 +406,17 @@ class StmtMixin:
             if c in comps and c in h.heap and not getattr(self, "_last_dry_had_havoc", False):
                 h.assume(z3.ForAll([x_], z3.Implies(z3.And(0 <= x_, x_ < old_alloc), z3.Select(h.heap[c], x_) == z3.Select(st.heap[c], x_)),
                                    patterns=[z3.Select(h.heap[c], x_)]))
+        if self.spec is not None and self.spec.check_guarantee and getattr(self.spec, "frame_rule", False):
+            # frame_rule contracts close the atomic segment at every cut point (loop entry, end of every iteration): the loop head is
+            # a segment start where the class invariants hold
+            h.loopvars = dict(h.loopvars)
+            h.loopvars["open_changed"] = set()
+            h.loopvars["body_has_havoc"] = bool(getattr(self, "_last_dry_had_havoc", False))
+            for entry in self.reg.invariants:
+                self.assume_invariant(h, entry, HeapView(h.heap))
+            self.assume_immutables(h, st, h.heap)
+            h.seg = dict(h.heap)
+            return h
         if self.spec is not None and self.spec.check_guarantee:
             open_changed -= {"w_dict", "mycalls"}
             h.loopvars = dict(h.loopvars)
@@ -445,6 +458,9 @@ class StmtMixin:
     def check_open_segment(self, st: State, open_changed, anchor, kind, body_has_havoc=False):
         """the part of the current atomic segment executed so far is within the guarantee (loop cut)"""
         if self.spec is None or not self.spec.check_guarantee:
+            return
+        if getattr(self.spec, "frame_rule", False):
+            self.close_segment(st, f"{anchor}:{kind}")
             return
         if body_has_havoc:
             changed_ = {c for c in self.comps if not (st.heap[c] is st.seg.get(c) or st.heap[c].eq(st.seg[c]))}
@@ -761,6 +777,9 @@ class StmtMixin:
                 if o0.kind != "normal":
                     out.append(o0)
                     continue
+                if self.spec is not None and hasattr(self.spec, "on_loop_body"):
+                    o0.st.ghost = dict(o0.st.ghost)
+                    self.spec.on_loop_body(self, o0.st, k, {"key": keyv, "val": val})
                 for o in self.exec_block(s.body, o0.st):
                     if o.kind in ("normal", "continue"):
                         for (name, f) in inv(self.loop_ctx(entry, o.st, {"P": P2, "src": src})):
